@@ -251,6 +251,20 @@ func c04NewKeys(rng interface{ Intn(int) int }) *c04Keys {
 			break
 		}
 		k.how[name] = rng.Intn(3)
+		// about one key in three is a client address that is no plain IP literal: realip hands an
+		// X-Real-Ip header on unchecked (junk from an upstream proxy, a link-local address with a
+		// zone, the "@" of a unix-socket peer); derived from the address, no further random draws
+		if ip := k.ip[name]; len(ip)%3 == 0 {
+			switch int(ip[len(ip)-1]) % 3 {
+			case 0:
+				k.ip[name] = "unknown-" + ip
+			case 1:
+				k.ip[name] = "fe80::" + strings.ReplaceAll(ip, ".", ":") + "%eth0"
+			default:
+				k.ip[name] = "@" + ip
+			}
+			k.how[name] = 1
+		}
 	}
 	return k
 }
